@@ -104,6 +104,10 @@ type sqlGen struct {
 	payloads                    []*Decl
 	dateType                    *Decl
 	tableHint                   string
+	usedAttrs                   map[int]bool
+	// allNamedIDs: every primary key has a named ID type and link tables use sql.NullInt64
+	// keys: no plain int64 id anywhere in the file
+	allNamedIDs bool
 }
 
 type sqlTable struct {
@@ -138,7 +142,7 @@ func NewSQLProg(idx int, r *rand.Rand) *Program {
 	root := &Pkg{Name: "pk" + id, Path: ModulePath + "/" + id, Dir: id}
 	p := &Program{ID: id, Family: "sqlprog", Root: root, Meta: map[string]any{}}
 	p.Sources = []string{id + "/models.go"}
-	g := &sqlGen{r: r, p: p, root: root, names: map[string]bool{}, truth: &SQLTruth{Composites: map[string]string{}, PkgName: root.Name}}
+	g := &sqlGen{r: r, p: p, root: root, names: map[string]bool{}, truth: &SQLTruth{Composites: map[string]string{}, PkgName: root.Name}, usedAttrs: map[int]bool{}}
 	for _, n := range []string{"db", "scanner", "loadjson", "dumpjson"} {
 		g.names[n] = true
 	}
@@ -147,6 +151,10 @@ func NewSQLProg(idx int, r *rand.Rand) *Program {
 		p.Subs = append(p.Subs, g.sub)
 	}
 	g.makeSupport()
+	g.allNamedIDs = g.pr(0.25)
+	if g.allNamedIDs {
+		p.Feature("sql:all-named-ids-with-nullable-link-keys")
+	}
 	nPrimary := 2 + g.r.Intn(3)
 	for i := 0; i < nPrimary; i++ {
 		g.makePrimaryTable(i)
@@ -361,6 +369,15 @@ func (g *sqlGen) column(name string, tableIdx int) (cs colSpec, crudOK bool) {
 		c.Kind = "nullable:" + w
 	case 16, 17, 18, 19: // jsonb payloads
 		d := g.payload()
+		if len(g.payloads) > 0 && g.pr(0.35) {
+			// the same field name with the same payload type in several tables
+			d = g.payloads[0]
+			if !g.usedAttrs[tableIdx] {
+				g.usedAttrs[tableIdx] = true
+				f.Name, c.Field = "Attributes", "Attributes"
+				g.p.Feature("sql:same-jsonb-column-in-several-tables")
+			}
+		}
 		f.Type = Ref(d)
 		c.Kind, c.SQLType, c.Check, c.Domain = "jsonb:"+d.Tags2(), "jsonb", "json", "json"
 	default:
@@ -435,7 +452,7 @@ func (g *sqlGen) payload() *Decl {
 		return d
 	}
 	var d *Decl
-	switch g.r.Intn(7) {
+	switch g.r.Intn(8) {
 	case 0, 1:
 		d = mkStruct("Payload").Tag("struct")
 	case 2: // named map
@@ -451,6 +468,26 @@ func (g *sqlGen) payload() *Decl {
 		inner := mkStruct("Inner")
 		d = mkStruct("Deep").Tag("struct-with-union")
 		d.Fields = append(d.Fields, &Field{Name: "Choice", Type: Ref(u)}, &Field{Name: "In", Type: Ref(inner)}, &Field{Name: "Many", Type: Slice(Ref(inner))})
+	case 6: // two unions sharing a member, one nested inside a member of the other
+		u1 := g.union()
+		u2 := g.addDecl(&Decl{Name: g.fresh("Deco" + u1.Name), Kind: DUnion}, "other.go") // a different 2-letter prefix (known finding of C01)
+		u2.Marker = "is" + u2.Name
+		var shared *Decl
+		for _, m := range g.root.Decls {
+			if m.Kind == DStruct && len(m.Impls) == 1 && m.Impls[0].Union == u1 {
+				shared = m
+				break
+			}
+		}
+		own := g.addDecl(&Decl{Name: g.fresh(u2.Name + "Own"), Kind: DStruct, Fields: []*Field{{Name: "S", Type: Basic("string")}}}, "other.go")
+		own.Impls = []*Impl{{Union: u2}}
+		if shared != nil {
+			shared.Impls = append(shared.Impls, &Impl{Union: u2})
+		}
+		grp := g.addDecl(&Decl{Name: g.fresh(u1.Name + "Group"), Kind: DStruct, Fields: []*Field{{Name: "Inner", Type: Ref(u2)}, {Name: "Label", Type: Basic("string")}}}, "other.go")
+		grp.Impls = []*Impl{{Union: u1}}
+		d = mkStruct("Scene").Tag("nested-unions-sharing-member")
+		d.Fields = append(d.Fields, &Field{Name: "Root", Type: Ref(u1)})
 	default: // struct with map of structs and fixed array of enums
 		inner := mkStruct("Cell")
 		d = mkStruct("Grid").Tag("struct-nested")
@@ -520,7 +557,7 @@ func (g *sqlGen) makePrimaryTable(i int) {
 	}
 	idType := Basic("int64")
 	t.truth.PrimaryType = "int64"
-	if g.pr(0.6) {
+	if g.pr(0.6) || g.allNamedIDs {
 		n := "Id" + d.Name
 		if g.pr(0.5) {
 			n = d.Name + "ID"
@@ -553,6 +590,14 @@ func (g *sqlGen) makePrimaryTable(i int) {
 			continue
 		}
 		cols = append(cols, g.fkColumn(t, prev, len(cols)))
+	}
+	// a self-referencing foreign key declared by tag, typed by the table's own ID type
+	if t.idT != nil && !tiny && g.pr(0.3) {
+		f := &Field{Name: "Parent", Type: Ref(t.idT), Tag: fmt.Sprintf(`gomacro-sql-foreign:"%s" gomacro-sql-on-delete:"CASCADE"`, d.Name)}
+		cols = append(cols, colSpec{field: f, col: SQLColumn{Field: "Parent", GoType: t.idT.Name, Kind: "fk:self-by-tag", SQLType: "integer", NotNull: true, Domain: "fk-self",
+			FK: &SQLFK{Target: d.Name, TargetSQL: t.truth.SQLName, OnDelete: "CASCADE", KeyType: t.idT.Name, ByTag: true, Exists: true}}})
+		g.p.Feature("sql:self-referencing-fk")
+		t.truth.CrudOK = false // rows would need an existing parent of the same table: not driven by the history driver
 	}
 	// a foreign key to a table that is not declared in this file (allowed by the tool)
 	if g.pr(0.05) && !tiny {
@@ -614,6 +659,14 @@ func (g *sqlGen) fkColumn(t, prev *sqlTable, idx int) colSpec {
 	c := SQLColumn{Field: name, Kind: "fk", SQLType: "integer", NotNull: true, Domain: "fk", FK: fk}
 	var tags []string
 	switch {
+	case g.allNamedIDs && t.truth.Primary == "": // link table of an all-named-ids file: nullable key by tag
+		f.Type = Std("sql.NullInt64")
+		fk.Nullable, fk.ByTag, fk.KeyType = true, true, "int64"
+		c.NotNull, c.Kind, c.Domain = false, "fk:null-tag", "fk-null"
+		tags = append(tags, fmt.Sprintf(`gomacro-sql-foreign:"%s"`, prev.decl.Name))
+	case g.allNamedIDs && prev.idT != nil: // by ID type only: no int64 key anywhere
+		f.Type = Ref(prev.idT)
+		c.Kind = "fk:id-type"
 	case prev.idT != nil && g.pr(0.6): // by ID type
 		f.Type = Ref(prev.idT)
 		c.Kind = "fk:id-type"
